@@ -9,16 +9,30 @@ import FluteModel.Drain
     ring w <len> <seed>             -> ok <k>            write <len> pseudo-random bytes (LCG from <seed>)
     ring wh <hex>                   -> ok <k>            write literal bytes
     ring r <n>                      -> ok <n'> <fnv>  |  WB        read into a buffer of <n> bytes
+    ring dr <n>                     -> ok <total> <fnv> <eof|WB>   read into <n> bytes until Ok(0) / WouldBlock
     ring f                          -> ok
-    ring st                         -> <producer> <consumer> <finish>
   stateless ops:
-    ring seq <size> <op,op,...>     -> <obs,obs,...>|<producer> <consumer> <finish>
+    ring seq <size> <op,op,...>     -> <obs,obs,...>
          op = w<k> (k counter bytes) | r<n> | f ;  obs = <k> | <hex> | - (Ok(0)) | WB | f
     ring bw <cenc> <cl|-> <kind> <L> <orig-hex> <chunk-hex>...     -> verdict (see `verdict`)
          the BlockWriter path over the chunks with the IDEAL decompressor (stream of L bytes, output <orig>)
-    ring dc <cenc> <chunk-hex>...   -> contract-ok     (the fields of `Drain.Contract`, measured by the harness on the
-                                                         real decompressors; the model ASSUMES them)
+    ring dc <cenc> <chunk-hex>...   -> contract-ok     ORACLE-ONLY (registered as such in ./check): the fields of
+                                                         `Drain.Contract` are measured by the harness on the real
+                                                         decompressors; the model ASSUMES them, its answer is a constant
   panics -> PANIC, out of fuel -> HANG
+
+  WHAT IS COMPARED, AND WHY THAT MUCH.
+  * `seq` / `w` / `wh` / `r` / `dr`: the exact answer of every call - bytes accepted, bytes delivered, WouldBlock vs
+    Ok(0).  These are precisely the observations (`Ring.Obs`) that `Props.Ring.ring_refines_fifo` / `ring_stream` /
+    `write_progress` speak about, and the object model relies on them (`ObjRecv.dwLoop`: `free := cap - 1 - ring.length`).
+    The model is a transcription of TODAY's ring: another FIFO-correct ring (capacity `size`, power-of-two rounding,
+    short read at the wrap) makes these lines differ WITHOUT violating C04 - the engine's oracle (relational, see
+    harness/engines/ring/src/main.rs) stays silent and ./check reports `model/implementation disagree …
+    no-failing-input-found`: the model (Ring.lean, and `free` in ObjRecv.dwLoop) has to follow the new policy.
+    NOT compared: producer / consumer / finish (private indices; no observable theorem is about them).
+  * `bw`: status and output relation predicted by `Drain.decodeWritePkt` / `Drain.flush` (the ring-level model of the
+    BlockWriter loops that `Props.Ring.drain_terminates` is about - NOT `ObjRecv.decodeWritePkt`, which engine `orecv`
+    validates) run with the private decompressor `ideal` below.
 -/
 namespace Flute.Drv.Ring
 open Flute Flute.Ring Flute.Drain
@@ -58,12 +72,23 @@ def seqOp (r : Ring) (ctr : Nat) (tok : String) : Option (Rs (Ring × Nat × Str
   else none
 
 def seqRun : Ring → Nat → List String → List String → String
-  | r, _, [], acc => ",".intercalate acc.reverse ++ s!"|{r.producer} {r.consumer} {if r.finish then 1 else 0}"
+  | _, _, [], acc => ",".intercalate acc.reverse
   | r, ctr, t :: rest, acc =>
     match seqOp r ctr t with
     | none => "bad-op"
     | some (.error _) => "PANIC"
     | some (.ok (r', ctr', o)) => seqRun r' ctr' rest (o :: acc)
+
+/-- `dr <n>`: read into `n` bytes until `Ok(0)` (`eof`) or WouldBlock (`WB`); fuel = bytes held + 2 (every other read
+    delivers at least one byte: `write_progress`), `more` if it runs out -/
+def drainAll (n : Nat) : Nat → Ring → List Nat → Option (Ring × List Nat × String)
+  | 0, r, acc => some (r, acc.reverse, "more")
+  | f + 1, r, acc =>                                   -- `acc`: the bytes delivered so far, newest first
+    match read r n with
+    | .error _ => none
+    | .ok (r', .wouldBlock) => some (r', acc.reverse, "WB")
+    | .ok (r', .ok []) => some (r', acc.reverse, "eof")
+    | .ok (r', .ok (b :: bs)) => drainAll n f r' ((b :: bs).reverse ++ acc)
 
 /-! ### the ideal decompressor -/
 
@@ -71,26 +96,41 @@ structure Ideal where
   consumed : Nat
   ended : Bool
   pending : List Nat
+  /-- the reader's input buffer holds bytes from beyond the end of the stream: it never asks the ring again -/
+  held : Bool
 
-/-- stream of `len` compressed bytes whose decompression is `orig`; pulls everything the ring holds whenever it needs
-    input (as flate2's `BufReader` does), hands the output out once the whole stream has been consumed;
-    `eofErr` : end of input inside the stream is an error (gzip) rather than `Ok(0)` (zlib / deflate) -/
-def ideal (len : Nat) (orig : List Nat) (eofErr : Bool) : Decomp Ideal where
+/-- The IDEAL decompressor, a layer PRIVATE to this driver (no theorem is about it; `drain_terminates` holds for every
+    decompressor meeting `Drain.Contract`): a stream of `len` compressed bytes whose decompression is `orig`.
+    * it pulls everything the ring holds whenever it needs input (as the `BufReader` inside flate2's readers does) and
+      hands the output out once the whole stream has been consumed;
+    * end of input inside the stream is an error (flate2 `zio::read`: "incomplete deflate stream"; gzip: UnexpectedEof);
+    * after the end of the stream it answers `Ok(0)`; `readAhead` (zlib / deflate, not gzip): a reader whose input
+      buffer is empty at that point refills it once more from the ring before answering - those bytes are never
+      consumed, but they have left the ring.  This is what decides between `ok` and `ERR` (stalled decoder) for a stream
+      followed by a few bytes of garbage. -/
+def ideal (len : Nat) (orig : List Nat) (readAhead : Bool) : Decomp Ideal where
   read := fun s r n =>
     let emit (s : Ideal) (r : Ring) : Ideal × Ring × DRead :=
       ({ s with pending := s.pending.drop n }, r, .ok (s.pending.take n))
     if n = 0 then (s, r, .ok [])
     else if s.pending ≠ [] then emit s r
-    else if s.ended then (s, r, .ok [])
+    else if s.ended then
+      if readAhead ∧ s.held = false then
+        match Ring.read r (r.buffer.length + 1) with
+        | .error _ => (s, r, .err)
+        | .ok (r', .wouldBlock) => (s, r', .wouldBlock)
+        | .ok (r', .ok []) => (s, r', .ok [])
+        | .ok (r', .ok (_ :: _)) => ({ s with held := true }, r', .ok [])
+      else (s, r, .ok [])
     else
       match Ring.read r (r.buffer.length + 1) with
       | .error _ => (s, r, .err)
       | .ok (r', .wouldBlock) => (s, r', .wouldBlock)
-      | .ok (r', .ok []) => (s, r', if eofErr then .err else .ok [])
+      | .ok (r', .ok []) => (s, r', .err)
       | .ok (r', .ok bytes) =>
         let c := s.consumed + bytes.length
-        if c ≥ len then emit { consumed := c, ended := true, pending := orig } r'
-        else if r'.finish then ({ s with consumed := c }, r', if eofErr then .err else .ok [])
+        if c ≥ len then emit { consumed := c, ended := true, pending := orig, held := decide (c > len) } r'
+        else if r'.finish then ({ s with consumed := c }, r', .err)
         else ({ s with consumed := c }, r', .wouldBlock)
 
 inductive Status where
@@ -108,7 +148,7 @@ def runChunks (D : Decomp Ideal) (fi : BW Ideal → Nat) (cl : Option Nat) :
     | .panic => (.panic, st.out)
     | .hang => (.hang, st.out)
   | st, c :: rest =>
-    match decodeWritePkt D fi (2 * c.length + 2) ⟨0, false, []⟩ st cl c with
+    match decodeWritePkt D fi (2 * c.length + 2) ⟨0, false, [], false⟩ st cl c with
     | .done st' => runChunks D fi cl (some st') rest
     | .err st' => (.err, st'.out)
     | .panic => (.panic, (st.map (·.out)).getD [])
@@ -119,7 +159,10 @@ def isPrefix : List Nat → List Nat → Bool
   | _ :: _, [] => false
   | a :: x, b :: y => a = b && isPrefix x y
 
-/-- canonical verdict (the same rule is applied by the harness to the real run) -/
+/-- canonical verdict (the same rule is applied by the harness to the real run): `<ok|ERR> <full|pfx|trunc|other>`,
+    un-collapsed for `valid` and `trailing`.  `truncated`: `ideal` knows when an inflater stops, not how much of a cut
+    stream it can already decode (it hands out nothing before the end of the stream), so `full` is printed as `pfx` on
+    both sides.  `garbage`: there is no inflate algorithm in the model, nothing but termination is predicted: `done`. -/
 def verdict (kind : String) (cl : Option Nat) (orig : List Nat) (st : Status) (out : List Nat) : String :=
   match st with
   | .panic => "PANIC"
@@ -128,13 +171,13 @@ def verdict (kind : String) (cl : Option Nat) (orig : List Nat) (st : Status) (o
     let s := if st = .ok then "ok" else "ERR"
     let rel := if out = orig then "full" else if isPrefix out orig then "pfx" else "other"
     if kind = "garbage" then "done"
-    else if kind = "truncated" then (if rel = "other" then "done other" else "done pfx")
+    else if kind = "truncated" then s ++ (if rel = "other" then " other" else " pfx")
     else
       let short : Bool := match cl with
         | some c => decide (c < orig.length)
         | none => false
       let rel' := if short && (rel == "full" || (rel == "pfx" && decide ((cl.getD 0) ≤ out.length))) then "trunc" else rel
-      if kind = "trailing" then "done " ++ rel' else s ++ " " ++ rel'
+      s ++ " " ++ rel'
 
 def bwOp (cenc clS kind lenS origH : String) (chunksH : List String) : String :=
   let cl? : Option (Option Nat) := if clS = "-" then some none else (clS.toNat?).map some
@@ -144,7 +187,7 @@ def bwOp (cenc clS kind lenS origH : String) (chunksH : List String) : String :=
     else if ¬ (kind = "valid" ∨ kind = "trailing" ∨ kind = "truncated" ∨ kind = "garbage") then "bad-op"
     else if chunks.any (·.isEmpty) ∨ chunks.isEmpty then "bad-op"
     else
-      let D := ideal len orig (cenc = "gzip")
+      let D := ideal len orig (cenc ≠ "gzip")
       let (st, out) := runChunks D (fun _ => orig.length + 4) cl none chunks
       verdict kind cl orig st out
   | _, _, _, _ => "bad-op"
@@ -180,10 +223,13 @@ def step (st : Option Ring) (args : List String) : Option Ring × String :=
     match st with
     | some r => (some (finishOp r), "ok")
     | none => (st, "bad-op")
-  | ["st"] =>
-    match st with
-    | some r => (st, s!"{r.producer} {r.consumer} {if r.finish then 1 else 0}")
-    | none => (st, "bad-op")
+  | ["dr", n] =>
+    match st, n.toNat? with
+    | some r, some n =>
+      match drainAll n ((content r).length + 2) r [] with
+      | none => (st, "PANIC")
+      | some (r', bs, fin) => (some r', s!"ok {bs.length} {fnv bs} {fin}")
+    | _, _ => (st, "bad-op")
   | ["seq", size, ops] =>
     match size.toNat? with
     | some n => (st, seqRun (Ring.new n) 0 (ops.splitOn ",") [])
